@@ -152,7 +152,7 @@ def build(P):
         if tier == "quick":
             d2 = r.sample(d2, 150); d3 = r.sample(d3, 120)
         else:
-            d3 = r.sample(d3, 12000)
+            d3 = r.sample(d3, 1500)
         for dims in all_dims + d2 + d3:
             lines, cells, exp = prog_for(dims)
             progs.append(Case(id="C06-rw-" + "_".join("%d.%d" % d for d in dims), prog=("\n".join(lines) + "\n").encode(),
@@ -160,7 +160,8 @@ def build(P):
             # probes one step outside, each as its own program (an error ends the run)
             box = list(itertools.product(*[range(lo - 1, hi + 2) for lo, hi in dims]))
             outside = [c for c in box if c not in set(cells)]
-            for cell in (outside if len(dims) == 1 or tier == "thorough" else r.sample(outside, min(3, len(outside)))):
+            nprobe = len(outside) if (len(dims) == 1 or (tier == "thorough" and len(dims) == 2)) else min(12 if tier == "thorough" else 3, len(outside))
+            for cell in (outside if nprobe == len(outside) else r.sample(outside, nprobe)):
                 l2 = lines[:1 + len(cells)] + ["OUTPUT \"probe\"", "a[%s] <- 77" % ", ".join(lit(v) for v in cell), "OUTPUT \"not reached\""]
                 progs.append(Case(id="C06-oob-%s-%s" % ("_".join("%d.%d" % d for d in dims), "_".join(map(str, cell))), prog=("\n".join(l2) + "\n").encode(),
                                   meta=dict(oob=True, units=["oob" + repr(dims) + repr(cell)])))
@@ -222,7 +223,7 @@ def build(P):
 
     C06 = dict(cases=c06_cases, model_is_oracle=("out", "exit", "files", "termination"), oracle=c06_oracle, builds=["normal", "san"], nontrivial=lambda c, r, m: True,
                rule="all 1-dimensional shapes with bounds in [-3,4], a sample (quick) / all 2-dimensional and a sample of 3-dimensional shapes: a distinct value written to every cell, "
-                    "all read back (expected text computed by the harness), every index one step outside probed in its own program; hand-built shapes for index type / count errors "
+                    "all read back (expected text computed by the harness), every index one step outside (all of them for 1- and, in the thorough tier, 2-dimensional shapes; a sample otherwise) probed in its own program; hand-built shapes for index type / count errors "
                     "and whole-array assignment (copy, independence, pointers and BYREF aliases to elements); generator programs; normal and sanitizer builds")
 
     # ------------------------------------------------------------------ C07
